@@ -2,3 +2,4 @@ import GM.Model.Basic
 import GM.Model.ByteClass
 import GM.Model.Utf8
 import GM.Model.Util
+import GM.Model.Table
